@@ -97,7 +97,7 @@ def _r13_arith(ctx):
 
 prop('C13',
      [('R00.dyn', RG.rule_no_dynamic), ('R13.1', RM.rule_members), ('R13.2', RM.rule_space_guard),
-      ('R13.5', _r13_arith), ('R13.6', RM.rule_dot_invert), ('R13.9', RM.rule_items),
+      ('R13.5', _r13_arith), ('R13.6', RM.rule_dot_invert), ('R13.9', RM.rule_items), ('R13.u', RM.rule_unknown_names),
       ('R13.i', RM.rule_iterpairs), ('R13.I', RM.rule_identity), ('R13.h', RM.rule_history)],
      'Static analysis of pyPRISM/core/MatrixArray.py: every operator member is abstractly interpreted on a heap with '
      'array identity for each operand kind (MatrixArray, scalar, ndarray): the result term must be the elementwise '
@@ -141,7 +141,7 @@ prop('C15',
 
 prop('C12',
      [('R00.dyn', RG.rule_no_dynamic), ('R12.g', RO.rule_fromarray), ('R12.f', RO.rule_fromfile),
-      ('R12.e', RT.rule_export)],
+      ('R12.e', RT.rule_export), ('R12.w', RP2.rule_omega_length_guard)],
      'Static analysis of FromArray/FromFile: constructor and calculate(k) are abstractly interpreted; every normally '
      'returning path (asserts and if/raise alike, paths enumerated over the data-dependent branches) must carry the '
      'facts len(values)==len(k) and, when a k column exists, len(k column)==len(k) and np.allclose(k column, k) with '
@@ -242,7 +242,7 @@ def _r17_libnames(ctx):
 
 
 prop('C17',
-     [('R00.dyn', RG.rule_no_dynamic), ('R17.d', RU.rule_conversions), ('R17.r', RU.rule_registry_isolation), ('R17.u', RU.rule_unit_literals)],
+     [('R00.dyn', RG.rule_no_dynamic), ('R17.d', RU.rule_conversions), ('R17.r', RU.rule_registry_isolation), ('R17.c', RU.rule_definitions), ('R17.u', RU.rule_unit_literals)],
      'Static analysis of pyPRISM/util/UnitConverter.py: the constructor and the six documented conversion methods are '
      'abstractly interpreted with pint quantities modelled as (magnitude term, unit monomial); the pinned pint registry is '
      'consulted as library metadata for existence, dimensionality, base factor and offset of every unit literal (a '
